@@ -14,7 +14,8 @@ inductive HB where
   | panic
   /-- OnStart: the stop signal arrives while the hook waits for its context; it returns `ctx.Err()`.
       OnShutdown: the hook holds on until the shutdown deadline.
-      OnReady: the hook does not come back before `Start` has returned. -/
+      OnReady: the hook does not come back before `Start` has returned.
+      OnReload: the stop signal arrives while the hook waits for its context; it returns `ctx.Err()`. -/
   | block
   /-- OnStart: the stop signal arrives during the hook, the hook still succeeds -/
   | cancelOk
